@@ -175,6 +175,34 @@ fn eval_det(t: &mut Toks) -> R<String> {
                 h.mpoly(&r)
             })
         }
+        "triinvalid" => {
+            // a long coordinate list (built here from the seed, not sent over the protocol) holding coordinates that the
+            // triangulator rejects for DIFFERENT reasons (too large, too small, NaN) at chosen positions: which error comes
+            // back must be a function of the input — the first offending coordinate — not of scheduling
+            let n = t.usize()?;
+            let seed = t.usize()? as u64;
+            let variant = t.usize()?;
+            if n < 16 || n > (1 << 21) { return Err("triinvalid: n out of range".into()); }
+            let mut r = Rng::new(seed, 0, 0);
+            let mut cs: Vec<Coord<f64>> = (0..n).map(|_| Coord { x: r.unit() * 1000.0, y: r.unit() * 1000.0 }).collect();
+            let big = 2f64.powi(210);
+            let small = 2f64.powi(-150);
+            let bad = |k: usize| -> Coord<f64> {
+                match k % 3 { 0 => Coord { x: big, y: 1.0 }, 1 => Coord { x: small, y: 1.0 }, _ => Coord { x: f64::NAN, y: 1.0 } }
+            };
+            // the earlier offender sits just before a binary split point of the list, the later one right at it
+            let split = n / 2;
+            let (i1, i2) = match variant % 4 { 0 => (split - 1, split), 1 => (split / 2 - 1, split), 2 => (split - 1, split + split / 2), _ => (n / 3, 2 * n / 3) };
+            cs[i1] = bad(variant / 4);
+            cs[i2] = bad(variant / 4 + 1);
+            let ls = LineString(cs);
+            let mp = MultiLineString(vec![ls.clone()]);
+            // (unconstrained only: the random segments cross each other, constraint insertion would take minutes)
+            let _ = &ls;
+            twice(&|h| {
+                match mp.unconstrained_triangulation() { Ok(ts) => h.u64(ts.len() as u64), Err(e) => h.str(&format!("{:?}", e)) }
+            })
+        }
         "selfop" => {
             // the SAME object as both operands against an equal-valued copy as second operand: the result is a
             // function of the operand values, not of whether the two references alias
@@ -756,6 +784,12 @@ pub fn gen(rng: &mut Rng, index: u64) -> String {
 }
 
 fn gen_case(rng: &mut Rng, index: u64) -> String {
+    if index % 97 == 5 {
+        let n = 1usize << rng.range(12, 16);
+        let inner = format!("C20.det triinvalid {} {} {}", n, rng.below(1 << 30), rng.below(12));
+        // half of them across fresh processes with different worker-pool sizes
+        return if rng.chance(1, 2) { format!("C20.xproc {}", inner) } else { inner };
+    }
     // Inputs beyond 32768 segments (i_overlay's parallel *sort*) are deliberately not generated:
     // on most such inputs `OverlayGraph::extract` of i_overlay 2.0.5 runs away in memory until the
     // process is killed — for every pool size alike, so it is not a C20 matter (see report).
